@@ -338,6 +338,39 @@ def r20_3(ctx, fx):
                 for a in acc_of(o):
                     pairs.append((a, len_calls_in(fn, o), fn.site(node)))
     okp = bool(pairs) and all(updates.get(a) is not None and lens <= updates.get(a, set()) and updates.get(a) <= lens for a, lens, _ in pairs)
+    # .. and it is the very term that was compared: `acc + X <= bound` is followed by `acc += X`, not by `acc += <part of X>` (a per-block
+    # overhead that is compared but not accumulated makes the bound unreachable)
+    def other_term(sum_def, acc):
+        out = set()
+        for k_ in ("a", "b"):
+            o_ = sum_def["rv"][k_]
+            sl = slice_locals(fn, o_, strict=True)
+            q_ = o_.get("m") or o_.get("c")
+            if q_ and (q_[0] == acc or acc in slice_locals(fn, o_)):
+                continue
+            out |= sl
+        return out
+    cmp_terms, upd_terms = {}, {}
+    for node, dest, rel in guards.comparisons(fn, is_sum, is_any_bound):
+        st = fn.stmt(node)
+        for k in ("a", "b"):
+            o = st["rv"][k]
+            if is_sum(fn, o):
+                for l_ in slice_locals(fn, o, strict=True):
+                    sd_ = fn.single_def(l_)
+                    if sd_ and sd_[1] == "assign" and sd_[2]["rv"]["r"] == "bin" and sd_[2]["rv"]["op"].startswith("Add"):
+                        for a in acc_of(o):
+                            cmp_terms.setdefault(a, set()).update(other_term(sd_[2], a))
+    for node, s_ in fn.assigns():
+        if s_["rv"]["r"] != "use" or len(s_["lhs"]) != 1 or fn.single_def(s_["lhs"][0]) is not None or s_["lhs"][0] in cnt_locals:
+            continue
+        src_ = s_["rv"]["o"].get("m") or s_["rv"]["o"].get("c")
+        sd_ = fn.single_def(src_[0]) if src_ else None
+        if sd_ and sd_[1] == "assign" and sd_[2]["rv"]["r"] == "bin" and sd_[2]["rv"]["op"].startswith("Add"):
+            upd_terms.setdefault(s_["lhs"][0], set()).update(other_term(sd_[2], s_["lhs"][0]))
+    same_term = bool(cmp_terms) and all(a in upd_terms and (cmp_terms[a] & upd_terms[a]) for a in cmp_terms)
+    ctx.ob("R20.3", "extract_next_batch/accumulates-the-compared-term", same_term, site=fn.site(d.node), cfg=fx.cfg,
+           detail="accumulators compared: %d; with an update by the compared term: %d" % (len(cmp_terms), sum(1 for a in cmp_terms if a in upd_terms and cmp_terms[a] & upd_terms[a])))
     ctx.ob("R20.3", "extract_next_batch/accumulates-the-compared-length", okp, site=fn.site(d.node), cfg=fx.cfg,
            detail="(accumulator, lengths compared, lengths accumulated): %s" % [(a, sorted(l_), sorted(updates.get(a, []))) for a, l_, _ in pairs])
     pops = fn.calls(r"VecDeque(<.*>)?::pop_front$")
